@@ -141,7 +141,9 @@ func vpC14_O1() {
 		otherID := pks[1].Issuer
 		in[0].KeyID = &otherID
 	}
+	randomizerBefore, secretBefore := new(big.Int).Set(kssRandomizer), new(big.Int).Set(kssSecret)
 	proofP, err := KeyshareResponse(kssSecret, kssRandomizer, commReq, respReq, serverKeys)
+	vpAssert("the server's secret and randomizer are left as they were", kssRandomizer.Cmp(randomizerBefore) == 0 && kssSecret.Cmp(secretBefore) == 0)
 	if dev != 0 {
 		vpAssert("server refuses a second message that differs from the commitment", err != nil && proofP == nil)
 		return
@@ -151,6 +153,11 @@ func vpC14_O1() {
 		return
 	}
 	vpAssert("server and user computed the same challenge", vpSameBig(proofP.C, challenge))
+	// the same second message delivered again (a retry): same answer, and the first answer is not altered by it
+	firstC, firstS := new(big.Int).Set(proofP.C), new(big.Int).Set(proofP.SResponse)
+	again, err := KeyshareResponse(kssSecret, kssRandomizer, commReq, respReq, serverKeys)
+	vpAssert("a re-delivered second message gets the same answer", err == nil && again != nil && vpSameBig(again.C, firstC) && again.SResponse.Cmp(firstS) == 0 && vpSameGroupElem(again.P, proofP.P))
+	vpAssert("an answer already given is not altered afterwards", proofP.C.Cmp(firstC) == 0 && proofP.SResponse.Cmp(firstS) == 0)
 	proofPs := make([]*ProofP, n)
 	kss := make([]string, n)
 	for i := range builders {
